@@ -61,8 +61,12 @@ def sanitizer(unit):
     micro = "µ"
     # mugr = "\u00b5"
     mugr = "μ"
-    return unit.replace(" ", "").replace("mu", "u").\
-        replace(micro, "u").replace(mugr, "u")
+    unit = unit.replace(" ", "").replace(micro, "u").replace(mugr, "u")
+    # repeat until stable so that sanitizing twice equals sanitizing once
+    # ("mmu" -> "mu" -> "u")
+    while "mu" in unit:
+        unit = unit.replace("mu", "u")
+    return unit
 
 
 def is_si(unit):
